@@ -32,6 +32,8 @@ def cases(tier, seed):
         pats = tsspace.mutation_patterns(E, "Ms")
         pats = pats[:3] if tier == "quick" else pats
         xs = xdecor.X_VARIANTS if not (tier == "quick" and "renumber" in a) else ["plain", "rich"]
+        if "renumber" not in a:
+            xs = list(xs) + ["chain_vg", "chain_io", "chain_vg_pre"]
         for (pn, pat), X in itertools.product(pats, xs):
             for dip in (False, "rich") if a["n"] % 2 == 0 else (False,):
                 out.append({"arg": a, "mut": pat, "X": X, "dip": dip, "above_root": int(pn == "mod3"), "recurrent": pn == "mod3b"})
@@ -42,7 +44,7 @@ def cases(tier, seed):
         "cases": out,
         "states": sp.states,
         "transitions": sp.transitions,
-        "bound": f"{sp.describe()} x mutation menu x X{xdecor.X_VARIANTS} x individuals x 3 methods x set_metadata x singletons_phased",
+        "bound": f"{sp.describe()} x mutation menu x X{xdecor.X_VARIANTS} + chained inputs (output of date / date+preprocess_ts used as input) x individuals x 3 methods x set_metadata x singletons_phased",
         "exhaustive": True,
     }
 
@@ -162,7 +164,22 @@ def run(case):
     import tsdate
 
     ts, _ = dating.build_input(case)
-    ts = xdecor.decorate(ts, case["X"], diploid=case["dip"])
+    if case["X"].startswith("chain_"):
+        # start from a non-initial state: the input is itself the product of earlier tsdate operations
+        ops = case["X"].split("_")[1:]
+        for op in ops:
+            if op == "vg":
+                ok, ts2 = call(tsdate.date, ts, mutation_rate=1.0, rescaling_intervals=0)
+            elif op == "io":
+                ok, ts2 = call(tsdate.date, ts, mutation_rate=1.0, method="inside_outside", population_size=1.0)
+            else:
+                ok, ts2 = call(tsdate.preprocess_ts, ts)
+            if not ok:
+                return {"evals": 0, "viol": [], "tags": {f"chain_setup_failed:{op}": 1}, "keys": []}
+            ts = ts2
+        ts = xdecor.decorate(ts, "plain", diploid=case["dip"])
+    else:
+        ts = xdecor.decorate(ts, case["X"], diploid=case["dip"])
     viol, tags, keys = [], {}, []
     evals = 0
     plans = [("variational_gamma", {"rescaling_intervals": 0}), ("variational_gamma", {"rescaling_intervals": 2})]
